@@ -61,8 +61,9 @@ def _int_ok(s):
         return None
 
 
-def tables():
-    from oslo_utils import versionutils
+def char_tables():
+    """the interpreter-level tables (no access to oslo_utils): usable even when the translator of the
+    versionutils tables fails, so that the implementation-only search can still run"""
     allc = [c for c in range(0x110000) if not 0xD800 <= c < 0xE000]
     big = ''.join(map(chr, allc))
     re_space = [ord(x) for x in re.findall(r'\s', big)]
@@ -77,6 +78,13 @@ def tables():
     cand = sorted(set(range(0x3100)) | set(re_space))
     int_space = [c for c in cand if c not in set(re_digit) and chr(c) not in '+-_'
                  and _int_ok(chr(c) + '1') == 1 and _int_ok('1' + chr(c)) == 1 and _int_ok(chr(c)) is None]
+    return {'re_space': re_space, 'int_space': int_space, 'zeros': zeros,
+            'max_digits': sys.get_int_max_str_digits()}
+
+
+def tables():
+    from oslo_utils import versionutils
+    t = char_tables()
     comp = []
     for k, f in versionutils.VersionPredicate._COMP_MAP.items():
         name = getattr(f, '__name__', None)
@@ -84,9 +92,8 @@ def tables():
             raise RuntimeError('_COMP_MAP entry %r -> %r is not one of the six operator functions' % (k, f))
         comp.append((k, name))
     pm = versionutils.VersionPredicate._PREDICATE_MATCH
-    return {'re_space': re_space, 'int_space': int_space, 'zeros': zeros,
-            'max_digits': sys.get_int_max_str_digits(), 'comp': comp,
-            'pattern': pm.pattern, 'flags': pm.flags}
+    t.update({'comp': comp, 'pattern': pm.pattern, 'flags': pm.flags})
+    return t
 
 
 def lean_chars(s):
@@ -306,7 +313,10 @@ def impl_pred(case, rank_of):
         vp = m.VersionPredicate(case['pred'])
     except Exception as e:
         return 'init:' + type(e).__name__
-    wb = '\tconds=' + (','.join('%s:%s' % (hexs(c), rank_of(v)) for c, v in vp.pred) or '-')
+    try:
+        wb = '\tconds=' + (','.join('%s:%s' % (hexs(c), rank_of(v)) for c, v in vp.pred) or '-')
+    except Exception as e:     # the parsed form is no longer (operator text, Version) pairs
+        wb = '\tconds=?' + type(e).__name__
     try:
         r = vp.satisfied_by(case['ver'])
         return ('bool:%d' % r if type(r) is bool else 'other:' + repr(r)[:60]) + wb
@@ -333,7 +343,7 @@ _ZEROS = None
 def zeros():
     global _ZEROS
     if _ZEROS is None:
-        _ZEROS = tables()['zeros']
+        _ZEROS = char_tables()['zeros']
     return _ZEROS
 
 
